@@ -21,7 +21,7 @@ ASSUMPTIONS = [
     "verdict theorem are those of the same id",
 ]
 
-TRIGGERS = {2: "C19.guilty_without_validator_record"}
+TRIGGERS = {2: "C19.guilty_without_validator_record", 3: "C19.stale_votes_counted"}
 CODES = {
     1: "an account that is not in the elected validator set opened an allegation",
     2: "a vote was accepted from a validator outside the elected set or frozen, or a second vote of the same validator",
@@ -34,6 +34,9 @@ CODES = {
     9: "a frozen byzantine-fault record changed although the validator was not released",
     10: "a frozen validator (or one found GUILTY and not released since) is still active / elected after EndBlock",
     11: "a transaction that names a validator but is not signed by it was executed",
+    15: "more than one GUILTY verdict for one accused within one conviction (no release in between)",
+    16: "after BeginBlock a validator record's staking amount differs from the total of its delegation records",
+    17: "a verdict was reached that the votes of the currently elected validators alone do not carry (votes of validators that left the active set were counted)",
     14: "a validator found GUILTY and not released since voted on an allegation",
     13: "the evidence status (active flag) of a staker differs from its election result: a staker outside the elected set is marked active, or an elected one inactive",
     12: "a request whose votes cross a share is still open after EndBlock (the decision is taken again every block)",
